@@ -220,6 +220,28 @@ CHECKS = {
 
 NOT_YET = {}
 
+# additions of session 3 to the notes (search families added after seeded changes / agents' reports; fixes and findings)
+MORE = {
+    'C03': ' Search also covers nested and 3-operand arithmetic operands (grid rows), product / division and absolute-value operands (searched only). '
+           'F38 (division printed as modulo) repaired by a fix: commit; F19 (absolute value printed without bars, test-pinned) known finding.',
+    'C04': ' The core generator also writes preferences with `where X is one of …` (one weak constraint per value) and situations with the direction '
+           'written after them; F42 (direction lost in the copies) repaired by a fix: commit.',
+    'C05': ' Search also judges the same conditions under `It is prohibited / required that` on all traces (polarity family) and prefixed clauses in '
+           'copied propositions; F41 (negated condition under `required`) repaired by a fix: commit.',
+    'C07': ' Renamings include spellings with inner underscores and duration clauses; F36 repaired by a fix: commit.',
+    'C09': ' A noun grid covers singular / plural over every plural morphology.',
+    'C10': ' F44 (a constant declared later changes an earlier rule) is a known finding.',
+    'C11': ' Headers are also inserted between all ordered pairs of a sentence pool and into wide-generator specifications.',
+    'C12': ' The frame monitor scans every module-level / class-level container and mutable default argument of the package generically; probes include '
+           'texts with syntax errors; F39 (hash-seed dependent diagnostic) repaired by a fix: commit.',
+    'C14': ' A definition family (one-value definitions, enumerations, ranges, facts of a concept with an inherited key) checks one shape per predicate; '
+           'F35, F37 repaired by fix: commits.',
+    'C16': ' A length of 0 is rejected by model and (after fix e206f50) by the code.',
+    'C17': ' Double cardinalities include pairs that share a bound.',
+    'C18': ' Every call of the real code runs under a time limit (non-termination is a violation: F33, repaired by a fix: commit); inputs include degenerate '
+           'temporal declarations and line separators other than \\n.',
+}
+
 ALL = [f'C{i:02d}' for i in range(1, 19)]
 
 
@@ -236,7 +258,7 @@ def main():
                 'replay_cmd_template': f'./check {pid} --replay {{path}}',
                 'engine': 'lean4-model+tie',
                 'level_claimed': {'category': 'proof', 'text': c['text'], 'design_ref': c['design']},
-                'level_note': c['note'],
+                'level_note': c['note'] + MORE.get(pid, ''),
                 'technique': c['technique'],
             })
     na = [{'property_id': pid, 'reason': NOT_YET.get(pid, 'check not built yet in this round (work in progress; see DESIGN.md §10 order of work)')}
